@@ -300,3 +300,6 @@ fn test_proxy_from_env_no_proxy() {
         assert_eq!(s.no_proxy_hosts, vec!["example.com", "www.reddit.com", "google.ca"]);
     });
 }
+
+#[cfg(kani)]
+include!(concat!(env!("ATTOHTTPC_VERIF_HARNESS"), "/proxy.rs"));
